@@ -67,6 +67,12 @@ def build(pkg, features=(), bin_name=None):
     key = (pkg, tuple(sorted(features)), bin_name)
     if key in _built:
         return _built[key]
+    if pkg == "wire" and features:
+        # one package per zvariant feature set (cached artifacts, no relinking when switching)
+        alias = {("gvariant",): "wire-gv", ("option-as-array",): "wire-oa", ("gvariant", "option-as-array"): "wire-gvoa"}
+        pkg2 = alias[tuple(sorted(features))]
+        _built[key] = build(pkg2)
+        return _built[key]
     hd = harness_dir()
     cmd = ["cargo", "build", "--offline", "-q", "-p", pkg]
     if bin_name:
